@@ -33,7 +33,7 @@ def main():
         "version": 1,
         "setup_cmd": "bash tools/setup.sh",
         "hooks": {"guard": "TURBOLENT_W2C2_VERIF", "enable": "no source hooks are needed: harnesses #include the real sources, schedules are controlled by pthread interposition, file effects are observed with strace",
-                  "baseline_off_cmd": "cmake --build /repo/_build >/dev/null && ctest --test-dir /repo/_build -j8 --timeout 900",
+                  "baseline_off_cmd": "cmake --build /repo/_build >/dev/null && /repo/_build/w2c2/w2c2_test && /repo/_build/wasi/w2c2wasi_test",
                   "source_commits": [], "add_only": True},
         "engines": [{"name": "lean4-proof+correspondence", "path": "/verif/tools/check.py", "serves_properties": sorted(CLAIMED),
                      "kind_free_text": "Lean 4 theorems over models regenerated from / tied to the C source; differential correspondence harnesses; counterexample search on break"}],
